@@ -317,6 +317,39 @@ pub fn builder(args: &[String]) -> Result<JValue> {
                                  "n_params": c.n_params, "what": what}));
         }
     }
+    // generated methods with two operands of the same type: positional meaning of the `_at` and the pushing variants
+    checked += 1;
+    let r = std::panic::catch_unwind(|| -> Result<Option<String>> {
+        let mut module = Module::with_config(ModuleConfig::new());
+        let m0 = module.memories.add_local(false, false, 1, None, None);
+        let m1 = module.memories.add_local(false, false, 2, None, None);
+        let t0 = module.tables.add_local(false, 1, None, walrus::RefType::Funcref);
+        let t1 = module.tables.add_local(false, 2, None, walrus::RefType::Funcref);
+        let mut fb = FunctionBuilder::new(&mut module.types, &[], &[]);
+        {
+            let mut b = fb.func_body();
+            // pushing variants: (src, dst) in field order
+            b.i32_const(0).i32_const(0).i32_const(0).memory_copy(m0, m1);
+            b.i32_const(0).i32_const(0).i32_const(0).table_copy(t0, t1);
+            // `_at` variants appended at the end positions
+            let n = b.instrs().len();
+            b.const_at(n, Value::I32(0)).const_at(n + 1, Value::I32(0)).const_at(n + 2, Value::I32(0)).memory_copy_at(n + 3, m1, m0);
+            let n = b.instrs().len();
+            b.const_at(n, Value::I32(0)).const_at(n + 1, Value::I32(0)).const_at(n + 2, Value::I32(0)).table_copy_at(n + 3, t1, t0);
+        }
+        let f = fb.finish(vec![], &mut module.funcs);
+        module.exports.add("f", f);
+        module.exports.add("m0", m0); module.exports.add("m1", m1); module.exports.add("t0", t0); module.exports.add("t1", t1);
+        let wasm = module.emit_wasm();
+        let mut feats = wasmparser::WasmFeatures::default(); feats.insert(wasmparser::WasmFeatures::MULTI_MEMORY);
+        wasmparser::Validator::new_with_features(feats).validate_all(&wasm).map_err(|e| anyhow::anyhow!("does not validate: {e}"))?;
+        let (_, ops) = decode(&wasm)?;
+        let copies: Vec<&String> = ops.iter().filter(|o| o.contains("Copy")).collect();
+        let want = ["MemoryCopy { dst_mem: 1, src_mem: 0 }", "TableCopy { dst_table: 1, src_table: 0 }", "MemoryCopy { dst_mem: 0, src_mem: 1 }", "TableCopy { dst_table: 0, src_table: 1 }"];
+        if copies.len() != 4 || copies.iter().zip(want.iter()).any(|(a, b)| a.as_str() != *b) { return Ok(Some(format!("memory_copy(src, dst) / table_copy(src, dst) and their _at variants: expected {:?}, emitted {:?}", want, copies))); }
+        Ok(None)
+    });
+    match r { Ok(Ok(None)) => {}, Ok(Ok(Some(w))) => failures.push(json!({"case": "two-operand generated methods", "what": w})), Ok(Err(e)) => failures.push(json!({"case": "two-operand generated methods", "what": format!("error: {e:#}")})), Err(_) => failures.push(json!({"case": "two-operand generated methods", "what": "panic"})) }
     failures.truncate(8);
     Ok(json!({"violated": !failures.is_empty(), "cases_checked": checked, "failures": failures}))
 }
